@@ -37,6 +37,11 @@ import (
 // (2-3 items from an earlier accepted reply), half of the accepted replies are of these kinds; the callback
 // must see exactly the data set of THAT reply, not what the cache holds after merging it.
 //
+// Unchanged data. A request may be answered with exactly what the stack has cached already (polling): every
+// third acceptable reply for a peer feature whose last accepted reply was a full one repeats that reply's content
+// verbatim for a fresh counter with registered callbacks. The reply is accepted like any other, so the callbacks
+// are due exactly once, with that data (all other replies carry a unique payload number and never repeat content).
+//
 // Other peers. A third, bystander peer (announced, same numbering) never answers anything; it is
 // disconnected (RemoveRemoteDeviceConnection) and reconnected at drawn points of the history, between
 // registrations and arrivals and (racing cases) concurrently with them; now and then it announces the removal
@@ -61,7 +66,7 @@ func init() {
 		ID:    "C14",
 		Floor: 100,
 		Rule: "case = seeded history of 14-40 steps over 4 local features x 1-4 counters x 4 callback functions x 2 peers: register (15% deliberate duplicates), register result callback, arrival {reply|result} x {matching, non-matching, repeated, missing reference} x " +
-			"{own, foreign function} x {wire, direct HandleMessage for the missing reference}; accepted replies carry a full list of 1-3 items or, once the cache of the answering feature holds 2-3 items, every second time a restricted data set (partial list, partial item + selector, delete selector) and the callback must see the data set of that reply; " +
+			"{own, foreign function} x {wire, direct HandleMessage for the missing reference}; accepted replies carry a full list of 1-3 items or, once the cache of the answering feature holds 2-3 items, every second time a restricted data set (partial list, partial item + selector, delete selector) and the callback must see the data set of that reply; every third acceptable reply for a feature whose cache holds a known full data set REPEATS that data set verbatim (same function, same items; polling unchanged data) for a counter with 1-2 registered callbacks, which must fire exactly once with that data; " +
 			"a third, bystander peer is disconnected/reconnected (or announces the removal of its entity and adds it again) at 8% of the steps (and is disconnected concurrently with every third racing arrival); every third case additionally races registrations against the arrival of a matching message (each followed by a second matching message) and registers 2-6 callbacks for one counter concurrently (different functions and one function value from several goroutines, followed by a matching and a repeated message). " +
 			"A case is non-trivial if at least one callback invocation, one refused duplicate registration (or one concurrent registration duel) and one arrival that must not fire anything were judged; distinct = distinct step-shape sequences (hash; payload values excluded).",
 		Assumptions: []string{
@@ -161,6 +166,10 @@ type c14World struct {
 	// lower bound of the number of items (ids 1..n) the cache of a peer's feature holds for a function,
 	// keyed by peer/source feature/function (maintained from the accepted replies injected so far)
 	cached map[string]int
+	// (payload number, items) of the full data set the cache of a peer's feature holds exactly, as far as the
+	// harness knows: the last accepted reply for that key was a full one (same keys as cached)
+	lastFull map[string][2]int
+	repeats  int
 	// the bystander peer
 	by       *rig.Peer
 	byUp     bool
@@ -211,6 +220,7 @@ func newC14World(c *rig.Ctx) *c14World {
 	}
 	cw.by, cw.byUp = cw.w.Peers[2], true
 	cw.cached = map[string]int{}
+	cw.lastFull = map[string][2]int{}
 	cw.baseline = c14Settle()
 	return cw
 }
@@ -360,6 +370,9 @@ type c14Arrival struct {
 	k       int
 	variant string
 	id      int
+	// repeat: the reply carries, for a fresh reference, verbatim the content (same function, same items) of the
+	// previous accepted full reply of that peer's feature: what the stack has cached already
+	repeat bool
 }
 
 func (cw *c14World) srcAddr(a c14Arrival) *model.FeatureAddressType {
@@ -456,6 +469,15 @@ func (cw *c14World) noteInjected(a c14Arrival) {
 		return
 	}
 	key := cw.cacheKey(a)
+	if a.variant == "" && a.ref != nil && !a.direct {
+		k := a.k
+		if k < 1 {
+			k = 1
+		}
+		cw.lastFull[key] = [2]int{a.n, k}
+	} else {
+		delete(cw.lastFull, key) // the cache no longer holds exactly one known full data set
+	}
 	switch a.variant {
 	case "":
 		cw.cached[key] = a.k
@@ -485,6 +507,10 @@ func (cw *c14World) due(a c14Arrival) (want []c14Inv) {
 		if a.variant != "" {
 			cw.partials++
 			cw.c.Count("callbacks-due-with-restricted-reply:"+a.variant, 1)
+		}
+		if a.repeat {
+			cw.repeats++
+			cw.c.Count("callbacks-due-with-a-reply-repeating-the-cached-content", 1)
 		}
 	}
 	if len(cw.pending[a.feat][*a.ref]) > 0 {
@@ -547,7 +573,9 @@ func (a c14Arrival) String() string {
 	}
 	s := fmt.Sprintf("peer%d %s to %d from [1]/%d ref=%s foreign=%v direct=%v n=%d", a.peer, a.kind, a.feat, a.srcFeat, ref, a.foreign, a.direct, a.n)
 	if a.kind == "reply" {
-		if a.variant == "" {
+		if a.repeat {
+			s += fmt.Sprintf(" full(%d items) REPEATING verbatim the content of the previous full reply of this feature", a.k)
+		} else if a.variant == "" {
 			s += fmt.Sprintf(" full(%d items)", a.k)
 		} else {
 			s += fmt.Sprintf(" %s(id %d)", a.variant, a.id)
@@ -655,7 +683,7 @@ func c14Run(c *rig.Ctx, racing bool) {
 		if len(tr) > 50 {
 			tr = tr[:50]
 		}
-		c.Sample(map[string]any{"racing": racing, "counters": len(ctrs), "bystander_disconnects": cw.byDrops, "callbacks_due_with_restricted_replies": cw.partials, "history": tr})
+		c.Sample(map[string]any{"racing": racing, "counters": len(ctrs), "bystander_disconnects": cw.byDrops, "callbacks_due_with_restricted_replies": cw.partials, "callbacks_due_with_replies_repeating_cached_content": cw.repeats, "history": tr})
 		if c.Failed() {
 			c.Witness(map[string]any{"racing": racing, "history": cw.trace})
 			c.Count("cases_with_violations", 1)
@@ -751,6 +779,13 @@ func c14Run(c *rig.Ctx, racing bool) {
 				a.foreign = true
 			}
 			cw.shapeReply(&a)
+			// polling unchanged data: every third acceptable reply for a feature whose cache holds a known full data
+			// set carries exactly that data set again (same function, same items), for a fresh reference
+			if a.kind == "reply" && !a.foreign {
+				if lf, ok := cw.lastFull[cw.cacheKey(a)]; ok && r.Intn(3) == 0 {
+					a.n, a.k, a.variant, a.id, a.repeat = lf[0], lf[1], "", 0, true
+				}
+			}
 			// the reference
 			var withPending, consumedHere, elsewhere []model.MsgCounterType
 			for _, ct := range ctrs {
@@ -766,7 +801,19 @@ func c14Run(c *rig.Ctx, racing bool) {
 				}
 			}
 			refKind := "matching"
+			if a.repeat && len(withPending) == 0 {
+				// the request that is answered with unchanged data: a counter with 1-2 callbacks registered for it
+				ct := ctrs[r.Intn(len(ctrs))]
+				fn0 := r.Intn(len(c14Fns))
+				for k, n := 0, 1+r.Intn(2); k < n; k++ {
+					cw.shape = append(cw.shape, fmt.Sprintf("reg%d", a.feat))
+					cw.register(a.feat, ct, (fn0+k)%len(c14Fns))
+				}
+				withPending = append(withPending, ct)
+			}
 			switch y := r.Intn(100); {
+			case a.repeat:
+				a.ref = util.Ptr(withPending[r.Intn(len(withPending))])
 			case y < 50 && len(withPending) > 0:
 				a.ref = util.Ptr(withPending[r.Intn(len(withPending))])
 			case y < 65 && len(consumedHere) > 0:
@@ -786,7 +833,11 @@ func c14Run(c *rig.Ctx, racing bool) {
 				refKind = "any"
 				a.ref = util.Ptr(ctrs[r.Intn(len(ctrs))])
 			}
-			cw.shape = append(cw.shape, fmt.Sprintf("%s%d%s%v%v%s", a.kind[:3], a.feat, refKind[:3], a.foreign, a.direct, a.variant))
+			cw.shape = append(cw.shape, fmt.Sprintf("%s%d%s%v%v%s%v", a.kind[:3], a.feat, refKind[:3], a.foreign, a.direct, a.variant, a.repeat))
+			if a.repeat {
+				c.Count("replies-repeating-the-cached-content-delivered", 1)
+				c.Seen("repeated_content_reply_classes", fmt.Sprintf("items=%d/to=%s/from=[1]/%d/peer%d", a.k, cw.names[a.feat], a.srcFeat, a.peer))
+			}
 			c.Seen("arrival_classes", fmt.Sprintf("%s/%s/foreign=%v/direct=%v/to=%s", a.kind, refKind, a.foreign, a.direct, cw.names[a.feat]))
 			if a.variant != "" {
 				c.Seen("restricted_reply_classes", fmt.Sprintf("%s/%s/to=%s", a.variant, refKind, cw.names[a.feat]))
@@ -802,7 +853,11 @@ func c14Run(c *rig.Ctx, racing bool) {
 			want := cw.due(a)
 			cw.logf("arrival %s (%s) -> %d invocations due", a, refKind, len(want))
 			cw.inject(a)
-			if !cw.settle("after "+a.String(), "arrival-"+refKind, want) {
+			class := "arrival-" + refKind
+			if a.repeat {
+				class = "arrival-matching-with-unchanged-content"
+			}
+			if !cw.settle("after "+a.String(), class, want) {
 				return
 			}
 			fired += int64(len(want))
@@ -967,7 +1022,7 @@ func c14Race(cw *c14World, a c14Arrival) bool {
 	// follow-up matching message from the other or the same peer
 	cw.nArr++
 	b := a
-	b.peer, b.n = r.Intn(2), 1000*cw.nArr+r.Intn(1000)
+	b.peer, b.n, b.repeat = r.Intn(2), 1000*cw.nArr+r.Intn(1000), false
 	cw.shapeReply(&b)
 	q := cw.w.Peers[b.peer]
 	_, data2, _ := cw.cmdOf(b)
